@@ -459,7 +459,7 @@ theorem impl_plainKey {s : List Char} {y : Bool} (h1 : isPlainSafeImpl s = true)
   have hmem := noControl_mem hctl
   have hnc : ∀ x ∈ s, isControl x = false := fun x hx => (hmem x hx).2
   refine ⟨⟨c, cs, e, hps⟩, fun after => ?_, ?_, ⟨(unsafe_facts hu).1, last_ne_tab hnc⟩,
-    resolvePlain_of_notAmbiguous hamb hb, key_notMarker hu⟩
+    resolvePlain_of_notAmbiguous hamb hb, key_notMarker hu, by rw [e]; exact classify_plainStart hq, (unsafe_facts hu).2⟩
   · rw [e]
     refine classify_plainStart (c := c) (cs := cs ++ ':' :: after) (fun hc => ?_)
     obtain ⟨c1, cs1, e1, hc1⟩ := hq hc
